@@ -297,24 +297,37 @@ void body(const Json& prog) {
     }
     for (auto& t : ts) t.join();
     if (prog.get("stale_epilogue", 0)) {
-        // Sequential, on a key no generated pattern can match (depth 4): an observer that invalidates itself is removed lazily by
-        // the notify that follows; its handle is then stale and unsubscribe() reports that with std::invalid_argument.  Whatever
-        // the call does, the router must remain usable afterwards (the probes below would hang on a leaked lock).
+        // Sequential, on keys under "z" that no generated pattern reaches while they hold observers: an observer that invalidates
+        // itself is removed lazily by the notify that follows; its handle is then STALE.  unsubscribe() on it reports that with
+        // std::invalid_argument and must have no other effect — not on an observer subscribed later to the same key, not on the
+        // router's lock, not after a shrink has visited the emptied node (which still has a populated child).
         using SelfView = tulz::Observer<>::SelfView;
-        RoutingKey zk = RoutingKeyBuilder{}.level("z").level("q").level("r").level("s").build();
-        int hits = 0;
-        USubscription h = w.router->subscribe(zk, [&hits](SelfView self) { hits++; self->invalidate(); });
-        size_t n1 = w.router->notify(zk);
-        size_t n2 = w.router->notify(zk);
-        (void)n1; (void)n2;
+        RoutingKey zi = RoutingKeyBuilder{}.level("z").level("q").build();
+        RoutingKey zc = RoutingKeyBuilder{}.level("z").level("q").level("r").level("s").build();
+        int hits = 0, later = 0, child = 0;
+        USubscription h = w.router->subscribe(zi, [&hits](SelfView self) { hits++; self->invalidate(); });
+        USubscription hc = w.router->subscribe(zc, [&child] { child++; });
+        (void)w.router->notify(zi);
+        (void)w.router->notify(zi);
         if (hits != 1) sim::violation("delivered-twice", "a self-invalidating observer was invoked " + std::to_string(hits) + " times by two notifies");
+        if (prog.get("stale_epilogue", 0) > 1) {
+            w.router->shrink(zi);
+            w.router->shrink(RoutingKeyBuilder{}.all().all().build());
+        }
+        USubscription h2 = w.router->subscribe(zi, [&later] { later++; });
         try {
             h->unsubscribe();
         } catch (const std::invalid_argument&) {
             sim::Untracked u;
             g_extra["stale_unsubscribe_rejected"]++;
         }
-        (void)w.router->exists(zk);
+        (void)w.router->notify(zi);
+        (void)w.router->notify(zc);
+        if (later != 1) sim::violation("stale-unsubscribe-side-effect", "after unsubscribe() of a stale handle the observer subscribed later to the same key was invoked " + std::to_string(later) + " times by one notify");
+        if (child != 1) sim::violation("stale-unsubscribe-side-effect", "the observer below the emptied node was invoked " + std::to_string(child) + " times by one notify");
+        h2->unsubscribe();
+        hc->unsubscribe();
+        (void)w.router->exists(zc);
         g_extra["stale_epilogues"]++;
     }
     // final probe from the controller: what is still subscribed is exactly what the model says
@@ -423,6 +436,10 @@ void analyse(const Json& prog) {
         std::set<std::vector<std::string>> ever;
         for (auto& s : ops)
             if (s.type == O_SUBSCRIBE && s.issue < o.ret) ever.insert(obs[s.obs].key);
+        if (prog.get("stale_epilogue", 0) && o.id >= 9001) {   // the epilogue's own keys held subscriptions before the final probes
+            ever.insert({"z", "q"});
+            ever.insert({"z", "q", "r", "s"});
+        }
         if (o.type == O_NOTIFY) {
             int64_t ub = 0;
             for (auto& k : ever) ub += key_matches(o.pat, k);
@@ -506,7 +523,8 @@ bool owns(const std::string& prop, const std::string& c) {
     if (prop == "C15") return c.rfind("tsan:", 0) == 0;
     if (prop != "C11") return false;
     static const std::set<std::string> s = {"not-linearizable", "mutation-during-delivery", "invoked-after-unsubscribe", "delivered-twice", "delivered-to-non-matching", "callback-outside-notify",
-                                            "notify-count", "exists-value", "depth-value", "router-deadlock", "op-incomplete", "terminate", "tulz-assert", "unexpected-exception"};
+                                            "notify-count", "exists-value", "depth-value", "router-deadlock", "op-incomplete", "terminate", "tulz-assert", "unexpected-exception",
+                                            "stale-unsubscribe-side-effect"};
     return s.count(c) > 0 || c.rfind("asan:", 0) == 0;
 }
 
@@ -602,7 +620,7 @@ void generate(sim::Rng& g, const std::string& prop, const std::string& tier, Jso
             }
         program.set("shared", shared);
     }
-    program.set("stale_epilogue", (int)(prop != "C15" && g.below(4) == 0));
+    program.set("stale_epilogue", prop != "C15" && g.below(4) == 0 ? 1 + (int)g.below(2) : 0);   // 2 = with shrink in between
     program.set("nobs", nobs).set("cb_yields", g.range(0, 3)).set("init", init).set("threads", threads);
     drv::draw_sched(g, cfg, true, 40 + 30 * total);
     cfg.step_cap = 30000;
